@@ -223,6 +223,13 @@ pub struct CompilerState<'a> {
 }
 
 impl<'a> CompilerState<'a> {
+    /// Rank for a newly declared variable. A declaration may replace an existing entry (the
+    /// parameters of a function declared by a prototype and then defined), so the table length
+    /// is not a fresh rank: take the next one after every variable seen so far
+    fn next_variable_order(&self) -> usize {
+        self.variables.values().map(|v| v.order + 1).max().unwrap_or(0)
+    }
+
     pub fn sorted_variables(&self) -> Vec<(&String, &Variable)> {
         let mut v: Vec<(&String, &Variable)> = self.variables.iter().collect();
         v.sort_by(|a, b| a.1.order.cmp(&b.1.order));
@@ -379,7 +386,7 @@ impl<'a> CompilerState<'a> {
             self.variables.insert(
                 k.0.clone(),
                 Variable {
-                    order: self.variables.len(),
+                    order: self.next_variable_order(),
                     signed: false,
                     memory: VariableMemory::ROM(0),
                     var_const: true,
@@ -544,7 +551,7 @@ impl<'a> CompilerState<'a> {
             self.variables.insert(
                 k.0.clone(),
                 Variable {
-                    order: self.variables.len(),
+                    order: self.next_variable_order(),
                     signed: false,
                     memory: VariableMemory::ROM(0),
                     var_const: true,
@@ -1519,7 +1526,7 @@ impl<'a> CompilerState<'a> {
                                                         self.variables.insert(
                                                             name.clone(),
                                                             Variable {
-                                                                order: self.variables.len(),
+                                                                order: self.next_variable_order(),
                                                                 signed: false,
                                                                 memory,
                                                                 var_const: true,
@@ -1633,7 +1640,7 @@ impl<'a> CompilerState<'a> {
                         self.variables.insert(
                             name.to_string(),
                             Variable {
-                                order: self.variables.len(),
+                                order: self.next_variable_order(),
                                 signed,
                                 memory,
                                 var_const,
@@ -1804,7 +1811,7 @@ impl<'a> CompilerState<'a> {
                                 self.variables.insert(
                                     name,
                                     Variable {
-                                        order: self.variables.len(),
+                                        order: self.next_variable_order(),
                                         signed,
                                         memory,
                                         var_const,
@@ -1957,7 +1964,7 @@ impl<'a> CompilerState<'a> {
                         self.variables.insert(
                             name.to_string(),
                             Variable {
-                                order: self.variables.len(),
+                                order: self.next_variable_order(),
                                 signed: false,
                                 memory: VariableMemory::Dummy,
                                 var_const: true,
@@ -2088,7 +2095,7 @@ impl<'a> CompilerState<'a> {
                         }
                         // Insert it into the global table
                         let var = Variable {
-                            order: self.variables.len(),
+                            order: self.next_variable_order(),
                             signed,
                             memory,
                             var_const,
